@@ -7,7 +7,8 @@
     mixin.py    parse_args / _parse_arg (zip_longest pairing, defaults, variable arguments resolved
                 one level at the call, @arguments), parse_guards, call                   -> `bindParams`, `tryMixin`
     deferred.py parse: candidates in definition order, first whose call yields a body wins; depth
-                counter (limit 64) passed only to calls that are direct items of the expanded body;
+                counter (limit 64) = number of expansions the call is nested in, also through rules
+                of an expanded body (scope.mixin_depth, since fix 2444980);
                 expansion evaluated in a frame of its own; fall-back to a plain rule of that name
                 (`copy_inner`), evaluated in the caller's frame                           -> `evalItems`
     utility.rename  the copied body is re-rooted under the calling rule                  -> `me` is the caller
@@ -159,8 +160,8 @@ deriving Repr, DecidableEq
 def valText (v : Value) : String := String.join (litText v)
 
 /-- `gas` bounds the total nesting of evaluations (the interpreter stack); `depth` is the counter of
-    Deferred.parse: incremented for a call that is a direct item of an expanded body, reset for a
-    call met while evaluating a nested rule. -/
+    Deferred.parse: the number of expansions the call is nested in (a nested rule of an expanded body
+    keeps it). -/
 def evalItems (tbl : Table) : Nat → Nat → Bool → Scope → List Sel → List Item →
     Except Err (List (String × String) × List OutRule)
   | _, _, _, _, _, [] => .ok ([], [])
@@ -171,7 +172,7 @@ def evalItems (tbl : Table) : Nat → Nat → Bool → Scope → List Sel → Li
       pure ((p, valText v') :: ds, out)
   | gas + 1, depth, inExp, sc, me, .rule sel body :: rest => do
       let me' := identParse (some me) sel
-      let (ds1, out1) ← evalItems tbl gas 0 false ([] :: sc) me' body
+      let (ds1, out1) ← evalItems tbl gas depth inExp ([] :: sc) me' body
       let own : List OutRule := if ds1.isEmpty then [] else [⟨me', ds1⟩]
       let (ds, out) ← evalItems tbl (gas + 1) depth inExp sc me rest
       pure (ds, own ++ out1 ++ out)
